@@ -10,7 +10,6 @@ WHY_MISSED = {
  "C16-2": "`FilteredReadExec::read_fragment`: async stream code (DataFusion), outside both verifiers -- C16 is claimed for the coercion clause only",
  "C16-3": "`TakeOperation::try_from_expr` pattern-matches real DataFusion `Expr` trees with column-name string comparisons: not in Verus' subset, symbolic `Box` trees exhaust CBMC (9.7); C16 is claimed for the coercion clause only",
  "C19-r2-2": "`BitmapIndex::update` (async, Arrow arrays, index store I/O): the index structures themselves are listed as undecided for C19",
- "C19-r2-3": "`ScalarIndexExec::fragments_covered_by_index_query` is an `async` recursive fn that loads index metadata; the And/Or/Not table inside it is four lines between `.await`s -- could be sliced (R7) onto an abstract bitmap type but was not built",
  "C20-1": "zone training (`ZoneMapIndexBuilder::update_stats`, Arrow arrays): listed as undecided for C20/C29; the decision function is correct given the wrong statistics",
  "C20-3": "n-gram spill merging (`merge_spill_streams`, async streams): listed as undecided for C20",
  "C26-2": "LZ4 buffer decompressor (`block.rs`, `LanceBuffer`, lz4 crate): C26 is claimed for the byte-pack codec only",
@@ -18,8 +17,13 @@ WHY_MISSED = {
  "C28-1": "FSST symbol-table construction (raw pointers, randomised trainer): the FSST half of C28 is listed as undecided",
  "C28-2": "FSST `compress_bulk` (raw pointers, 32 KiB inputs): the FSST half of C28 is listed as undecided",
  "C30-1": "coalescing in `FileScheduler::submit_request`: measured infeasible in the design phase (section 4, C30)",
- "C30-2": "`IoQueue::on_bytes_consumed` (mutex-protected; the loop that removes one priority per IOP) is not under contract: only `PrioritiesInFlight::remove` itself is; a sliced contract 'removes exactly num_reqs copies' was considered but a change that deletes the loop loses the loop anchor and would be reported as UNDECIDED, not as a violation",
  "C30-3": "`LanceEncodingsIo::submit_request` (lance-file/src/io.rs, async, `Bytes`): byte-exactness half of C30 is listed as undecided",
+ "C05-1": "`Manifest::max_field_id`: nested `flat_map` over fragments / data files / field ids; Kani attempt with array-backed shims ran out of memory at 28 GB for 2 x 2 x 2 (9.7)",
+ "C05-2": "`Transaction::assign_row_ids`: CBMC out of memory in the design phase (section 4, C07/C18); C05 is claimed for the fragment-id high-water mark only",
+ "C05-3": "`merge_fragments_valid` (lance/src/dataset/transaction.rs, iterator chains over `Fragment`s): not under contract; C05 is claimed for the fragment-id high-water mark only",
+ "C17-1": "`RowDatasetVersionSequence::mask` (`iter_mut`, `retain` closure over a heap `Vec`): outside Verus' subset; Kani attempt out of memory at 40 GB (9.7); listed as undecided for C17 (lookup half only)",
+ "C17-2": "`Transaction::build_manifest` (700-line match, async callers): version ASSIGNMENT is listed as undecided for C17",
+ "C17-3": "`get_updated_rows` builds a SQL filter string for an async scan (delta.rs): listed as undecided for C17",
  "C29-1": "zone training (`update_stats`, nan_count accumulation over Arrow arrays): listed as undecided for C29",
  "C29-2": "legacy writer statistics (`get_string_statistics`, Arrow string arrays): listed as undecided for C29",
  "C29-3": "legacy writer statistics (`get_binary_statistics`): listed as undecided for C29",
@@ -60,9 +64,12 @@ out.append("Source of the changes: fresh sub-agents, one per property, each give
 out.append("**%d of %d valid seeded changes are caught** (exit 1 with the named obligation); the others are misses in code that the\n"
            "claim texts already list as undecided -- each with the reason.  Checks were strengthened where a miss was within\n"
            "reach: `treemap` (after C21-2), `bloom_decision` (after C20-2), `indexed_expr` + `index_planner` (after C19-r2-1; this\n"
-           "is how defect F5 was found), `take_addrs` (after C15-r2-3), the richer `flags_apply` shim (after C37-2 first came out\n"
-           "as exit 2 because the shim lacked `num_deleted_rows`), the dirty output buffer in `bitpack` (after C28-3), `rowids_real`\n"
-           "(counterexamples for `encoded_array`, after C34-1 had none).\n" % (n_caught, n_valid))
+           "is how defect F5 was found), `index_coverage` (after C19-r2-3), `take_addrs` (after C15-r2-3), the `on_bytes_consumed`\n"
+           "slice with the loop-free fallback (after C30-2), the richer `flags_apply` shim (after C37-2 first came out as exit 2\n"
+           "because the shim lacked `num_deleted_rows`), the dirty output buffer and `u32_w0` in the quick tier of `bitpack` (after\n"
+           "C28-3), `rowids_real` (counterexamples for `encoded_array`, after C34-1 had none).  Attempts that failed: `decompose_sequence`\n"
+           "(C34-3 / C15-r2-2) and `max_field_id` (C05-1), see 9.7.  `C19-coerce-*` are my own breaking edits from round 1, not\n"
+           "independent seeds; `C21-4` breaks an existing test and is not counted.\n" % (n_caught, n_valid))
 out.append("| seed | property | change | confirmed | result of `./check <property>` with the change applied |")
 out.append("|---|---|---|---|---|")
 out.extend(rows)
